@@ -94,6 +94,16 @@ CHECKS = {
         category="exploration",
         note="bounded-exhaustive input enumeration (not a proof about all strings); None/ValueError classified by the harness, all other outcomes judged by TLC",
         ref="DESIGN.md 5 C17"),
+    "C18": dict(
+        technique="TLA+ transition system of the builder (Segmentation.tla: Merge/Split/Move); TLC proves Valid invariant from every valid state under every bound configuration; every update the real candidates() proposes in those states, and random walks, judged by TLC (Trace_Seg)",
+        text="Boards 2x2, 1x4, 2x3 (thorough 3x2, 3x3 = 1434 connected partitions) x all bound configurations with min<=max<=5: the invariant holds on the specification from every valid state (and fails when the articulation guard is removed - spec-level binding demonstration); in each of those states every update proposed by the real candidates() is applied with copy_with_update and must yield a valid partition within the bounds and leave its argument unchanged; seeded random walks from initial() on boards up to 6x6.",
+        note="allow_unmet_constraints_first=False; proposals must be sound, not complete; the kind of update (merge/split/move) is a diagnostic; inner-list sharing is not mutation",
+        ref="DESIGN.md 5 C18"),
+    "C19": dict(
+        technique="TLA+ PRNG spec (uniformity / bijectivity model-checked) replayed into the real functions; TLC trace validation of generate_problem runs with inferred accept/reject decisions (Trace_Gen over Generator.tla); reproducibility pairs",
+        text="Prng.tla: rejection-sampling randint uniform on exactly [a,b] for every raw-source size D<=16, shuffle a bijection from index choices to permutations (n<=5) - checked by TLC; every (D,a,b,raws) case replayed into the real randint with a scripted raw source; real randint/choice/shuffle/random calls with the real XorShift recorded with their raw draws and recomputed by TLC. Generator: runs of the real generate_problem over 11 builder patterns (Choice, nested lists/tuples, ArrayBuilder2D with symmetry / disallow_adjacent / use_move, SegmentationBuilder2D) with policy callbacks are validated event by event: every candidate a neighbour of the current problem per the builder's rules, the result the argument of a sat + unique solver call, None only otherwise, nothing mutated. Reproducibility: same seed under a different Python random state and different z3 seeds.",
+        note="the XorShift bit stream is not pinned; exp() acceptance not modelled (accept/reject is an unlogged internal step TLC infers); callbacks are deterministic functions of the problem",
+        ref="DESIGN.md 5 C19"),
 }
 
 NOT_APPLICABLE = {}
